@@ -299,6 +299,35 @@ def e5(repo, res):
             res.add(Finding("E5", c.mod.rel, f"BaseCollection.{name} (getter)", fn, f"uses {form[1]}({form[2]!r}): not the traversal/kind of the sibling *_all getters", fn.lineno))
 
 
+def typed_view_flatten(repo, res, rule):
+    """a flat list of the sensors (sources) of a collection tree assembled from the typed direct views - `x.sensors` plus `sub.sensors`
+    for every `sub` in `x.collections_all` / `x.collections` - lists level by level; the documented order (`sensors_all`, the order
+    of the rows of every field result) is the pre-order walk of `children`.  Found anywhere outside the typed getters themselves."""
+    n = 0
+    for m, q, fn, cl in repo.all_functions():
+        for kind in ("sensors", "sources"):
+            direct = [x for x in ast.walk(fn) if isinstance(x, ast.Attribute) and x.attr in (kind, "_" + kind) and isinstance(x.ctx, ast.Load)]
+            if not direct:
+                continue
+            for loop in ast.walk(fn):
+                if not (isinstance(loop, (ast.For, ast.comprehension)) and isinstance(loop.target, ast.Name)):
+                    continue
+                it = loop.iter
+                if not (isinstance(it, ast.Attribute) and it.attr.lstrip("_") in ("collections", "collections_all")):
+                    continue
+                body = loop if isinstance(loop, ast.For) else fn
+                inner = [x for x in ast.walk(body) if isinstance(x, ast.Attribute) and x.attr in (kind, "_" + kind) and isinstance(x.value, ast.Name)
+                         and x.value.id == loop.target.id]
+                outer = [x for x in direct if ast.unparse(x.value) == ast.unparse(it.value)]
+                if inner and outer:
+                    n += 1
+                    res.add(Finding(rule, m.rel, q, loop if isinstance(loop, ast.For) else inner[0], f"the {kind} of a collection tree are gathered level by level ({norm(outer[0])}, then "
+                                    f"{norm(inner[0])} for each sub-collection): a direct {kind[:-1]} behind a child collection comes out before that collection's members, "
+                                    f"unlike in `{kind}_all` / the pre-order walk that orders the rows of every result", getattr(loop, "lineno", inner[0].lineno)))
+    res.ob(f"{rule}:no level-by-level flattening from typed views", n == 0, {"rule": rule, "instances": n}, nontrivial=False)
+    return n
+
+
 def run(repo, res, tier):
     res.rules = ["E1 tree-edit typestate on all exits", "E2 who-may-write tree attributes", "E3 cycle test dominates parent store", "E4 copy restores the parent link", "E5 typed flattenings share the traversal of children_all"]
     g = CallGraph(repo)
@@ -390,6 +419,7 @@ def run(repo, res, tier):
         res.add(Finding("E3", c.mod.rel, "BaseCollection.add", "parent assignment not dominated by the self/ancestor cycle test",
                         f"guards={[norm(x.test) for x in guards]}", stores[0].lineno))
     e5(repo, res)
+    typed_view_flatten(repo, res, 'E5b')
     res.assumptions += ["container operations (list.remove/append) and isinstance do not raise on the paths examined",
                         "callee summaries: Collection.add (complete on normal return), Collection.remove (detaches on normal return) - "
                         "both are themselves editors checked by this rule"]
